@@ -5,7 +5,7 @@ from __future__ import annotations
 import ast
 from typing import Dict, List, Optional, Tuple
 
-from ..core import AnalysisError, FuncInfo, Repo, attr_chain, call_name, unparse, walk_no_nested
+from ..core import AnalysisError, FuncInfo, Repo, attr_chain, call_name, deviates, unparse, walk_no_nested
 from ..report import Ctx
 
 PROP = "C17"
@@ -352,7 +352,17 @@ def rule_n1(ctx: Ctx) -> None:
     if ok and d_name:
         ctx.ok("C17-N1", f.where, "list input: every permutation filed under its length", loops[0], f)
     else:
-        ctx.violation("C17-N1", f, lst, "list input is not grouped as D[len(perm)].append(perm) for every element")
+        got = "; ".join(unparse(x) for x in (loops[0].body if len(loops) == 1 else [])) or None
+        lv = unparse(loops[0].target) if len(loops) == 1 else "perm"
+        if len(loops) == 1 and len(loops[0].body) == 1 and isinstance(loops[0].body[0], ast.If) and not loops[0].body[0].orelse \
+                and [unparse(x) for x in loops[0].body[0].body] == [f"{d_name}[len({lv})].append({lv})"] and unparse(loops[0].iter) == a:
+            ctx.violation("C17-N1", f, loops[0].body[0], f"list input is filtered by `{unparse(loops[0].body[0].test)[:60]}` before it is grouped: some of the given permutations are dropped", robust=True)
+            got = None
+        if got is None and len(loops) == 1:
+            pass
+        else:
+            deviates(ctx, "C17-N1", f, lst, (f"for {lv} in {unparse(loops[0].iter)}: " + got) if got else None, [f"for {lv} in {a}: {d_name}[len({lv})].append({lv})"],
+                     "list input is not grouped as D[len(perm)].append(perm) for every element", absent_is_violation=False)
     # predicate
     outer = [s for s in fn.body if isinstance(s, ast.For)]
     good = False
@@ -366,12 +376,22 @@ def rule_n1(ctx: Ctx) -> None:
     if good:
         ctx.ok("C17-N1", f.where, "predicate input: exactly the permutations of lengths 0..n satisfying it, filed under their length", outer[0], f)
     else:
-        ctx.violation("C17-N1", f, fn, f"predicate input is not expanded to {{i: [p in S_i if A(p)]}} for i in range({n} + 1)")
+        def flat(st) -> str:
+            if isinstance(st, ast.For):
+                return f"for {unparse(st.target)} in {unparse(st.iter)}: " + "; ".join(flat(x) for x in st.body)
+            if isinstance(st, ast.If) and not st.orelse:
+                return f"if {unparse(st.test)}: " + "; ".join(flat(x) for x in st.body)
+            return unparse(st)
+        got = flat(outer[0]) if len(outer) == 1 else None
+        iv = unparse(outer[0].target) if len(outer) == 1 else "i"
+        pv = unparse(outer[0].body[0].target) if len(outer) == 1 and outer[0].body and isinstance(outer[0].body[0], ast.For) else "perm"
+        deviates(ctx, "C17-N1", f, fn, got, [f"for {iv} in range({n} + 1): for {pv} in Perm.of_length({iv}): if {a}({pv}): {d_name}[{iv}].append({pv})"],
+                 f"predicate input is not expanded to {{i: [p in S_i if A(p)]}} for i in range({n} + 1)", absent_is_violation=False)
     # dict
     if [unparse(s) for s in dc.body] == [f"{d_name} = {a}"]:
         ctx.ok("C17-N1", f.where, "dictionary input is used as given", dc, f)
     else:
-        ctx.violation("C17-N1", f, dc, "dictionary input is transformed before mining")
+        deviates(ctx, "C17-N1", f, dc, "; ".join(unparse(x) for x in dc.body), [f"{d_name} = {a}"], "dictionary input is transformed before mining", k=2, absent_is_violation=False)
     # pipeline: mine(D, m, n) -> forb(<both results of mine>, m) -> returned
     mines = [st for st in f.body if isinstance(st, ast.Assign) and isinstance(st.value, ast.Call) and call_name(st.value) == ("mine",)]
     forbs = [st for st in f.body if isinstance(st, ast.Assign) and isinstance(st.value, ast.Call) and call_name(st.value) == ("forb",)]
